@@ -256,6 +256,44 @@ def run_cases(imports, case_type, chk, terms, shard=300, tag="cases"):
     return sorted(bad)
 
 
+PAIR_RE = re.compile(r"=\s*\(\s*\[(.*?)\]\s*,\s*\[(.*?)\]\s*\)\s*:\s*list nat \* list nat", re.S)
+
+
+def run_cases_classify(imports, case_type, chk, terms, shard=20, tag="sys"):
+    """Like run_cases, for checkers returning 0 (agree) / 1 (disagree) / 2 (skipped: knife edge or
+    outside the model).  Returns (disagreeing indices, skipped indices)."""
+    d = workdir()
+    jobs = []
+    for k in range(0, len(terms), shard):
+        path = os.path.join(d, f"{tag}_{k // shard}.v")
+        with open(path, "w") as f:
+            f.write(imports + "\n")
+            f.write("Set Printing Width 1000000.\nSet Printing Depth 1000000.\n")
+            f.write(f"Definition cases : list ({case_type}) := [\n")
+            f.write(";\n".join(terms[k:k + shard]))
+            f.write("\n].\n")
+            f.write(f"Eval vm_compute in (classify {chk} cases).\n")
+        jobs.append((k, path))
+    bad, skipped = [], []
+    with ThreadPoolExecutor(max_workers=JOBS) as ex:
+        for k, rc, out in ex.map(_run_shard, jobs):
+            m = PAIR_RE.search(out)
+            if rc != 0 or not m:
+                raise Broken(f"coqc failed on {tag}_{k // shard}.v (rc={rc}):\n{out[-3000:]}")
+            for grp, dest in ((m.group(1), bad), (m.group(2), skipped)):
+                body = grp.strip()
+                if body:
+                    dest.extend(k + int(x) for x in body.split(";"))
+    if not os.environ.get("VERIF_KEEP"):
+        for _, path in jobs:
+            for ext in (".v", ".vo", ".vok", ".vos", ".glob"):
+                try:
+                    os.remove(path[:-2] + ext)
+                except OSError:
+                    pass
+    return sorted(bad), sorted(skipped)
+
+
 def coq_eval(imports, exprs, tag="eval"):
     """Evaluate expressions in the kernel and return coqc's raw output (diagnostics only)."""
     d = workdir()
